@@ -3,6 +3,7 @@ import Spake2Verif.Proofs.PropAuxB7
 import Spake2Verif.Proofs.PropAuxC1
 import Spake2Verif.Proofs.PropAuxC3
 import Spake2Verif.Proofs.PropAuxC4
+import Spake2Verif.Proofs.GroupShapeTie
 /-!
 # C14 — Password-to-scalar and seed-to-element derivations are exact and in-group
 
@@ -333,5 +334,32 @@ example : IG.arb ⟨23, 11, 2⟩ (asciiOf "s1") = .ok 3 ∧ Py.pow3 3 11 23 = 1 
 /-- `password_to_scalar` on the toy group lands in `[0, 11)` -/
 example : 0 ≤ (intGroup ⟨23, 11, 2⟩).p2s (asciiOf "pw") ∧ (intGroup ⟨23, 11, 2⟩).p2s (asciiOf "pw") < 11 :=
   p2s_range _ _ (by decide)
+
+/-! ### Tie A for the two derivations as whole flows -/
+
+/-- `password_to_scalar` (the shared function: `scalar_size_bytes + 16` HKDF bytes, length assertion, big-endian number,
+`% q`) and its two callers `IntegerGroup.password_to_scalar` (`size_bytes(q)`, `q`) and
+`_Ed25519Group.password_to_scalar` (`32`, `order() = L`) ARE the translation `Gen/GroupShape.lean` of the current source -/
+theorem password_to_scalar_is_translated :
+    (∀ (pw : Bytes) (n : Nat) (q : Int),
+      GroupShape.IntShape.password_to_scalar GroupShapeTie.modelPrims pw (n : Int) q = .ok (passwordToScalar pw n q)) ∧
+    (∀ (P : IntGroupParams) (pw : Bytes),
+      GroupShape.IntShape.g_password_to_scalar GroupShapeTie.modelPrims P.p P.q P.g pw = .ok ((intGroup P).p2s pw)) ∧
+    (∀ (c : Curve) (pw : Bytes),
+      GroupShape.EdGroupShape.g_password_to_scalar GroupShapeTie.modelPrims c.Q c.L c.d c.I (Ed25519.zeroPt c) pw =
+        .ok ((edGroup c).p2s pw)) :=
+  ⟨GroupShapeTie.p2s_tie, GroupShapeTie.int_p2s_tie, GroupShapeTie.ed_p2s_tie⟩
+
+/-- `IntegerGroup.arbitrary_element` (expand to `element_size_bytes`, `r = (p-1)//q`, `assert r*q == p-1`,
+`h = number % p`, `pow(h, r, p)`, `assert _is_member`) and the Ed25519 `arbitrary_element` (48 HKDF bytes, `% Q`, the retry
+loop over `y + plus`: `xrecover`, reject off-curve candidates, multiply by the cofactor with `scalarmult(8)`, reject the
+identity, `assert` that `L` kills the result, return an `Element`; the model runs the loop with 4096 rounds of fuel) ARE the
+translation `Gen/GroupShape.lean` of the current source -/
+theorem arbitrary_element_is_translated :
+    (∀ (P : IntGroupParams) (seed : Bytes), ((intGroup P).arb seed).map GroupShapeTie.toE =
+      GroupShape.IntShape.arbitrary_element GroupShapeTie.modelPrims P.p P.q P.g seed) ∧
+    (∀ (c : Curve), 0 ≤ c.L → ∀ (seed : Bytes), ((edGroup c).arb seed).map EdShapeTie.toS =
+      GroupShape.EdGroupShape.g_arbitrary_element GroupShapeTie.modelPrims c.Q c.L c.d c.I (Ed25519.zeroPt c) 4096 seed) :=
+  ⟨GroupShapeTie.int_arb_tie, fun c hL => (GroupShapeTie.ed_group_tie c hL).2.2.2.2.1⟩
 
 end Spake2Verif.C14
